@@ -47,6 +47,9 @@ func StartProxy(cfg *Config, seeds []string) (*Host, error) {
 	if err != nil {
 		return nil, err
 	}
+	if d := os.Getenv("VERIF_PROXY_LOGDIR"); d != "" {
+		dir = d
+	}
 	h.logDir = dir
 	lvl := os.Getenv("VERIF_PROXY_LOG")
 	if lvl == "" {
@@ -133,7 +136,11 @@ func StartProxy(cfg *Config, seeds []string) (*Host, error) {
 }
 
 // Cleanup removes the proxy's log directory.
-func (h *Host) Cleanup() { os.RemoveAll(h.logDir) }
+func (h *Host) Cleanup() {
+	if os.Getenv("VERIF_PROXY_LOGDIR") == "" {
+		os.RemoveAll(h.logDir)
+	}
+}
 
 // Readable reports whether the proxy's epoll instance has events pending, waiting up to d.
 func (h *Host) Readable(d time.Duration) bool {
